@@ -122,6 +122,9 @@ fn class_weights(mode: Prop, kind: Kind, mbuff_len: usize) -> Vec<(Class, u32)> 
     w
 }
 
+/// Longest history generated (set once from the command line; the thorough tier uses longer ones).
+pub static MAX_OPS: std::sync::atomic::AtomicU64 = std::sync::atomic::AtomicU64::new(40);
+
 pub fn generate(rng: &mut Rng, mode: Prop) -> Scenario {
     // ---- swarm configuration ---------------------------------------------------------------
     let kind = match mode {
@@ -184,11 +187,14 @@ pub fn generate(rng: &mut Rng, mode: Prop) -> Scenario {
                 let (d, e) = *rng.pick(&offsets);
                 gen_slot_plain(tag, d, e)
             }
-            Class::ProbePktAbs => gen_probe_pkt_abs(tag, rng.below((p0len - 8) as u64 + 1) as usize),
+            Class::ProbePktAbs => {
+                let idx = rng.below((p0len - 8) as u64 + 1) as usize;
+                gen_probe_pkt_abs(tag, idx, *rng.pick(&[1u8, 1, 2, 4, 8]))
+            }
             Class::ProbePktInd => {
                 let idx = rng.below(8) as usize;
                 let reg = rng.below((p0len - 8 - idx) as u64 + 1) as usize;
-                gen_probe_pkt_ind(tag, idx, reg)
+                gen_probe_pkt_ind(tag, idx, reg, *rng.pick(&[1u8, 1, 2, 4, 8]))
             }
             Class::ProbeR1Load => {
                 let lim = if kind == Kind::Raw { p0len } else { mbuff_len };
@@ -217,7 +223,7 @@ pub fn generate(rng: &mut Rng, mode: Prop) -> Scenario {
     let w_exec = wv(rng, 6).max(2);
     let w_fault = if faults { wv(rng, 2).max(1) } else { 0 };
     let weights = [w_new, w_setprog, w_setver, w_helper, w_calc, w_jit, w_cl, w_exec, w_fault];
-    let nops = rng.range(5, 40) as usize;
+    let nops = rng.range(5, MAX_OPS.load(std::sync::atomic::Ordering::Relaxed).max(5)) as usize;
 
     // ---- history ---------------------------------------------------------------------------
     let mut gm: Option<Model> = None; // the generator's own prediction of the VM state
